@@ -63,6 +63,12 @@ TEXTS_DONTCARE = [' {"a": 1}', '{"a": 1}\n', '{oops}', '[1, 2', '[not json]', 't
 
 
 def json_native(rng, depth=0):
+    if depth == 0 and rng.chance(0.08):
+        # large payloads (several buffers' worth when streamed)
+        return rng.pick([list(range(rng.randint(700, 3000))),
+                         [{'id': i, 'name': 'record %d' % i, 'tags': ['a', 'b']} for i in range(rng.randint(40, 200))],
+                         dict(('key%04d' % i, i) for i in range(rng.randint(250, 900))), 'x' * rng.randint(4097, 20000),
+                         {'blob': 'y' * 5000, 'after': [1, 2, 3]}])
     r = rng.randrange(11)
     if r == 0:
         return None
@@ -169,6 +175,10 @@ def judge_basic_text(sh, rng):
                           ensure_ascii=rng.chance(0.5), indent=rng.pick([None, 2]))
         if rng.chance(0.15):
             text = json.dumps({'big': list(range(rng.randint(600, 3000))), 'pad': 'p' * rng.randint(0, 5000)})
+        elif rng.chance(0.15):
+            # JSON whose strings look like markup: still a serialized JSON object/array
+            text = json.dumps(rng.pick([{'page': '<!doctype html><html><body>x</body></html>'}, ['<html>', 1], {'<html': None},
+                                        {'a': '</html>', 'b': '<html lang="en">'}]))
         if not text or text[0] not in '{[':
             text = json.dumps({'v': json.loads(text)})
         want = 'application/json'
